@@ -277,7 +277,7 @@ def run(ctx):
                           {"template": tpl, "context": g}, observed=rout[:400], required=oout[:400], replay={"kind": "tal", "template": tpl, "globals": repr(g)})
         # (4) context: exactly what it held before, apart from explicit global defines
         gd = global_define_names(ast)
-        for part in ("locals", "localStack", "repeatMap", "repeatStack"):
+        for part in ("locals", "localStack", "repeatMap", "repeatStack", "attrs", "repeat_names"):
             if pre[part] != post[part]:
                 res.violation("C18:context-leftover:" + part, "the caller's context is not restored after expansion", {"template": tpl},
                               observed={part: post[part]}, required={part: pre[part]}, replay={"kind": "tal", "template": tpl, "globals": repr(g)})
@@ -427,6 +427,8 @@ def _snapshot_noiter(c):
 
 def _snapshot(c):
     return {"locals": copy.deepcopy(dict(c.locals)), "localStack": copy.deepcopy(list(c.localStack)),
+            # the built-in names too: `attrs` (the current element's attributes while a command runs) and `repeat`
+            "attrs": copy.deepcopy(c.globals.get("attrs")), "repeat_names": sorted(c.globals.get("repeat", {}).keys()) if hasattr(c.globals.get("repeat", {}), "keys") else None,
             "globals": {k: copy.deepcopy(v) for k, v in c.globals.items() if k not in talgen.BUILTIN_GLOBALS and not callable(v)},
             "repeatMap": sorted(c.repeatMap.keys()) if hasattr(c.repeatMap, "keys") else repr(c.repeatMap), "repeatStack": len(c.repeatStack)}
 
